@@ -199,6 +199,46 @@ where
     }
 }
 
+/// Whether a raw `G1Affine` encoding is one that `G1Affine::to_raw_bytes`
+/// produces: both coordinates' limbs below the base-field modulus, the
+/// infinity flag 0 or 1, and the flag set only on the identity's own encoding.
+fn raw_g1_is_canonical(chunk: &[u8]) -> bool {
+    // BLS12-381 base field modulus, little-endian limbs
+    const MODULUS: [u64; 6] = [
+        0xb9fe_ffff_ffff_aaab,
+        0x1eab_fffe_b153_ffff,
+        0x6730_d2a0_f6b0_f624,
+        0x6477_4b84_f385_12bf,
+        0x4b1b_a7b6_434b_acd7,
+        0x1a01_11ea_397f_e69a,
+    ];
+
+    if chunk.len() != G1Affine::RAW_SIZE {
+        return false;
+    }
+
+    let limb = |i: usize| {
+        let mut bytes = [0u8; 8];
+        bytes.copy_from_slice(&chunk[8 * i..8 * (i + 1)]);
+        u64::from_le_bytes(bytes)
+    };
+    let below_modulus = |offset: usize| {
+        for i in (0..6).rev() {
+            let l = limb(offset + i);
+            if l != MODULUS[i] {
+                return l < MODULUS[i];
+            }
+        }
+        false
+    };
+
+    match chunk[G1Affine::RAW_SIZE - 1] {
+        0 => below_modulus(0) && below_modulus(6),
+        1 => chunk == G1Affine::identity().to_raw_bytes().as_slice(),
+        _ => false,
+    }
+}
+
 impl CommitKey {
     /// Serialize the [`CommitKey`] into bytes.
     ///
@@ -284,6 +324,16 @@ impl CommitKey {
         let mut powers_of_g = Vec::with_capacity(len);
 
         for chunk in bytes[u64::SIZE..].chunks_exact(G1Affine::RAW_SIZE) {
+            // The raw encoding carries the field elements' internal limbs and
+            // an infinity flag verbatim. Reject anything the encoder cannot
+            // have produced before it reaches the unchecked constructor: a
+            // flag other than 0/1 is not a valid `Choice`, unreduced limbs are
+            // a second encoding of the same element, and an infinity flag on
+            // other coordinates is a second encoding of the identity.
+            if !raw_g1_is_canonical(chunk) {
+                return Err(Error::PointMalformed);
+            }
+
             // Safety: raw-byte chunk size is checked by `chunks_exact`.
             let point = unsafe { G1Affine::from_slice_unchecked(chunk) };
             let point_is_valid =
